@@ -351,7 +351,10 @@ static int pcre_keyvalue_buffer_subst_ext(buffer *b, const char *pattern, const 
             p = (const unsigned char *)strchr((const char *)p, '}');
             if (NULL == p) return -1;
         }
-        if (0 == flags) flags = BURL_ENCODE_PSNDE; /* default */
+        /* default encoding unless an encoding modifier was given
+         * (a lone tolower: / toupper: must not suppress it) */
+        if (0 == (flags & ~(BURL_TOLOWER|BURL_TOUPPER)))
+            flags |= BURL_ENCODE_PSNDE;
       #ifdef HAVE_PCRE
         pattern[0] == '$' /*(else '%')*/
           ? pcre_keyvalue_buffer_append_match(b, ctx, num, flags)
